@@ -2,7 +2,7 @@
 // "conversion const -> boxed reuses the stored parameters": the constants of a `ConstMontyParams` type that equal their definitions
 // (`ConstMontyForm::pwf()`, l6_constmonty.rs) give well-formed boxed parameters with the same modulus, precision = LIMBS limbs, and
 // field-wise the same VALUES. Separate unit: it needs the `ConstMontyParams` trait of l6_constmonty.rs.
-// ASSUMED: `From<&Uint<LIMBS>> for BoxedUint` (`Vec::from(uint.to_limbs()).into()`): copies the limbs (LIMBS >= 1).
+// `From<&Uint<LIMBS>> for BoxedUint` (`Vec::from(uint.to_limbs()).into()`) is a body; library assumption: `Vec<T>: From<[T; N]>`.
 use vstd::prelude::*;
 extern crate alloc;
 use alloc::sync::Arc;
@@ -17,6 +17,9 @@ use crate::l8_boxed_methods::*;
 use crate::l8_boxed_monty::*;
 verus! {
 
+// `impl<T, const N: usize> From<[T; N]> for Vec<T>` (= `<[T]>::into_vec(Box::new(s))`): same elements
+pub assume_specification<T, const N: usize> [<Vec<T> as From<[T; N]>>::from] (a: [T; N]) -> (r: Vec<T>)
+    ensures r@ == a@;
 impl<'a, const LIMBS: usize> vstd::std_specs::convert::FromSpecImpl<&'a Uint<LIMBS>> for BoxedUint {
     open spec fn obeys_from_spec() -> bool { false }
     open spec fn from_spec(u: &'a Uint<LIMBS>) -> BoxedUint { arbitrary() }
@@ -30,17 +33,15 @@ impl<const LIMBS: usize> vstd::std_specs::convert::FromSpecImpl<Odd<Uint<LIMBS>>
     open spec fn from_spec(u: Odd<Uint<LIMBS>>) -> Odd<BoxedUint> { arbitrary() }
 }
 
-//@@ fn src/uint/boxed/from.rs | impl<const LIMBS: usize> From<&Uint<LIMBS>> for BoxedUint | from | stub | props C16 C15 C11
+//@@ fn src/uint/boxed/from.rs | impl<const LIMBS: usize> From<&Uint<LIMBS>> for BoxedUint | from | body | props C16 C15 C11
 impl<const LIMBS: usize> From<&Uint<LIMBS>> for BoxedUint {
-#[verifier::external_body]
 fn from(uint: &Uint<LIMBS>) -> (ret__: BoxedUint)
 //@+
-    // ASSUMED (`Vec::from(uint.to_limbs()).into()`; `From<Vec<Limb>>` pushes a ZERO limb for LIMBS == 0)
-    ensures LIMBS >= 1 ==> ret__.limbs@ == uint.limbs@
+    ensures LIMBS >= 1 ==> ret__.limbs@ == uint.limbs@, LIMBS == 0 ==> ret__.limbs@ == seq![Limb(0)]
 //@-
 {
-    unimplemented!()
-}
+        Vec::from(uint.to_limbs()).into()
+    }
 }
 //@@ end
 //@@ fn src/uint/boxed/from.rs | impl<const LIMBS: usize> From<Uint<LIMBS>> for BoxedUint | from | body | props C16 C15 C11
